@@ -1,6 +1,7 @@
 #!/bin/bash
-# Re-run every kept seeded change against the checks named in its meta.json ("checks_expected"), or the
-# property it breaks; writes seeded/RESULTS.txt.  /repo is restored after each one.
+# Re-run every kept seeded change on the current /repo HEAD: the patch must apply, its demonstration must FAIL with the
+# change applied (the change still breaks the property on this tree), and the checks named in its meta.json
+# ("checks_expected", or the property it breaks) are run; writes seeded/RESULTS.txt.  /repo is restored after each one.
 cd /verif
 out=seeded/RESULTS.txt
 : > $out
@@ -8,10 +9,13 @@ for d in seeded/S*/; do
   id=$(basename $d)
   props=$(python3 -c "import json,sys;m=json.load(open('$d/meta.json'));print(' '.join(m.get('checks_expected') or [m['property']]))")
   (cd /repo && git diff --quiet && git apply /verif/$d/patch.diff) || { echo "$id: patch does not apply" | tee -a $out; continue; }
+  mkdir -p /repo/_seeded && cp $d/demo.py /repo/_seeded/demo.py
+  (cd /repo && timeout 600 /venv/bin/python -W ignore _seeded/demo.py >/dev/null 2>&1); drc=$?
+  rm -rf /repo/_seeded
   for p in $props; do
     o=$(timeout 3000 ./check $p 2>&1); n=$(echo "$o" | grep -c "^VIOLATION")
-    echo "$id $p violations=$n $(echo "$o" | grep 'tier=' | tail -1 | sed 's/.*obligations/obligations/')" | tee -a $out
+    echo "$id demo_rc_with_change=$drc $p violations=$n $(echo "$o" | grep 'tier=' | tail -1 | sed 's/.*obligations/obligations/')" | tee -a $out
   done
-  (cd /repo && git checkout -- .)
+  (cd /repo && git checkout -- . && rm -f resulttable)
   git checkout -- evidence replays 2>/dev/null; git clean -fdq replays evidence 2>/dev/null
 done
